@@ -3,7 +3,7 @@ from .. import spec
 from ..gen import G
 from ..common import run_apps, app, out_of, sig, base_files, TODAY
 
-THEOREMS = []
+THEOREMS = ['day_foods', 'item_ingredients', 'item_totals', 'register_days']
 LEVEL = 'proof'
 RULE = ('random logs (repeated foods in a day, negative/zero quantities, foods in and not in the book, elements logged directly that also '
         'come from a recipe, empty recipes, empty days) x random nested books; the default register is parsed and compared with the '
